@@ -371,6 +371,9 @@ inductive Op
   | mload (m : Nat) (src : Option TArg) (sh : TShape) (flds : List (Nat × Nat)) (cache : Bool) (ext : List (Nat × Nat))
   | mcopy (m2 m1 : Nat) (nlB nlD : Nat) (cache : Bool)
   | mfree (m : Nat)
+  /-- a finalized template is extended (`bufr_template_add_DescValue`) and finalized again: the expanded form it
+  owned is released and a new one built -/
+  | mset (m : Nat) (sh : TShape)
   /-- lookup cache of the tables a template owns (looked into when the template is copied) -/
   | mcache (m : Nat) (c : Bool)
   | dnew (d m : Nat) (nlB nlD : Nat) (cache : Bool)
@@ -481,6 +484,10 @@ def plan (s : State) : Op → Option (List Prim)
         some (planTablesCopy b1 mid (fun f => (fld s t1.id f).target) (extOfTables s t1) nlB nlD cache).prims
       | _, _ => none
   | .mfree m => some [.freeRoot (slotM m)]
+  | .mset m sh =>
+    match s.slot? (slotM m) with
+    | none => none
+    | some r => some [.setPay r sh.pay]
   | .mcache m c =>
     match s.slot? (slotM m) with
     | none => none
